@@ -293,7 +293,7 @@ class CasJsonDeserializer:
             def fix_up(elements):
                 return lambda: setattr(fs, "elements", [feature_structures.get(e) for e in elements])
 
-            self._post_processors.append(fix_up(json_fs.get(ELEMENTS_FIELD)))
+            self._post_processors.append(fix_up(json_fs.get(ELEMENTS_FIELD) or []))
 
         self._strip_reserved_json_keys(attributes)
 
@@ -341,7 +341,8 @@ class CasJsonDeserializer:
         if elements and (type_name == TYPE_NAME_FLOAT_ARRAY or type_name == TYPE_NAME_DOUBLE_ARRAY):
             return [self._parse_float_value(v) for v in elements]
         else:
-            return elements
+            # Empty arrays are written without %ELEMENTS
+            return elements or []
 
     def _resolve_references(self, fs, ref_features: Dict[str, any], feature_structures: Dict[int, any]):
         for key, value in ref_features.items():
